@@ -4,7 +4,7 @@ PROP = {
     "generated": ["TimeoutConsts"],
     "lean_modules": ["SwimVerif.Model.TimeoutCoord", "SwimVerif.Proofs.TimeoutCoord",
                      "SwimVerif.Generated.TimeoutConsts", "SwimVerif.Model.InactivityRt",
-                     "SwimVerif.Proofs.InactivityRt", "SwimVerif.Model.CoordThreads"],
+                     "SwimVerif.Proofs.InactivityRt", "SwimVerif.Model.CoordThreads", "SwimVerif.Model.InactivityDl"],
     "engines": [
         {"name": "coord-random", "crate": "core", "bin": "sv-c17", "machine": "c17",
          "features": [], "cases": {"quick": 6000, "thorough": 600000}, "min_shard": 1000},
@@ -19,6 +19,10 @@ PROP = {
         # activity and clock advances; stop / no stop, stop time and disconnection reason compared with the model
         {"name": "rt-inactivity", "crate": "core", "bin": "sv-c17x", "machine": "c17rt", "gen_args": ["rt"],
          "cases": {"quick": 8000, "thorough": 400000}, "min_shard": 1000, "nontrivial_min_ops": 4},
+        # the same for the downlink runtime (two parties: read and write task of the real ValueDownlinkRuntime with a
+        # small empty_timeout): consumers attach and leave, the remote lane sends events, the clock advances
+        {"name": "dl-inactivity", "crate": "core", "bin": "sv-c17x", "machine": "c17dl", "gen_args": ["dl"],
+         "cases": {"quick": 6000, "thorough": 300000}, "min_shard": 1000, "nontrivial_min_ops": 3},
         # the real coordinator, one OS thread per voter (2 and 3 parties): monitor only
         {"name": "coord-threads", "crate": "core", "bin": "sv-c17x", "machine": "c17th", "modes": ["monitor"],
          "gen_args": ["threads"], "cases": {"quick": 16000, "thorough": 800000}, "min_shard": 1000,
